@@ -19,7 +19,7 @@ dst = f'/verif/seeded/{TAG}'
 os.makedirs(dst, exist_ok=True)
 for f in ['patch.diff', 'demo.diff', 'README.md']:
     shutil.copy(f'{src}/{f}', f'{dst}/{f}')
-out = subprocess.run(['/verif/tools/try_seeded.sh', f'{dst}/patch.diff', ID], capture_output=True, text=True).stdout.strip()
+out = subprocess.run([os.environ.get('TRY', '/verif/tools/try_seeded.sh'), f'{dst}/patch.diff', ID], capture_output=True, text=True).stdout.strip()
 rc = re.search(r'exit=(\d)', out)
 readme = open(f'{src}/README.md').read()
 meta = {
